@@ -179,6 +179,26 @@ def run(ctx):
                 ctx.violation("curve-independent-of-other-records", dict(case=cd, record=i, joint=np.asarray(joint[pos]).tolist(),
                                                                         alone=(alone if isinstance(alone, str) else np.asarray(alone[0]).tolist())), seam="hvsrpy.process")
                 break
+        if ctx.evaluations % 2 == 0:
+            # a list in which ONE recording object occurs at several positions ([a, b, a]; a window repeated on purpose, or the same object appended
+            # twice by a loop): every position yields its own curve, equal to what distinct objects holding the same samples yield (seed C03-W of round 9
+            # keyed the positions by id(record))
+            k = len(c["records"])
+            idx = list(range(k)) + [0] if k == 1 else [0, 1, 0] + list(range(2, k)) + ([1] if k % 2 else [])
+            ca = dict(cd, records=[c["records"][j] for j in idx])
+            objs = [pg.make_srecord(r) for r in c["records"]]
+            ra = pg.run_impl(ca, srecords=[objs[j] for j in idx])["result"]
+            rf = pg.run_impl(ca)["result"]
+            ctx.supporting["aliased_list_runs"] = ctx.supporting.get("aliased_list_runs", 0) + 1
+            same = (isinstance(ra, str) and isinstance(rf, str)) or (not isinstance(ra, str) and not isinstance(rf, str) and len(ra) == len(rf)
+                                                                       and all(pg.mat_close(a, b, 1e-12) for a, b in zip(ra, rf)))
+            if not same:
+                ctx.violation("one-curve-per-record-in-order", dict(case=dict(ca, shared_positions=idx, n_objects=k), positions_of_shared_objects=idx,
+                                                                    why="a list holding one recording object at several positions does not give the curves of "
+                                                                        "distinct objects with the same samples at those positions",
+                                                                    shared=(ra if isinstance(ra, str) else np.asarray(ra).tolist()),
+                                                                    distinct=(rf if isinstance(rf, str) else np.asarray(rf).tolist())),
+                              seam="hvsrpy.process with one object at several positions")
         if len(c["records"]) >= 2:
             perm = [int(x) for x in rng.permutation(len(c["records"]))]
             pr = pg.run_impl(dict(cd, records=[c["records"][j] for j in perm]))["result"]
@@ -205,4 +225,11 @@ def run(ctx):
 
 def replay(case):
     import c01
+    if "shared_positions" in case:
+        idx = case["shared_positions"]
+        objs = {}
+        for pos, j in enumerate(idx):
+            objs.setdefault(j, pg.make_srecord(case["records"][pos]))
+        f = lambda r: r if isinstance(r, str) else np.asarray(r).tolist()
+        return dict(shared_objects=f(pg.run_impl(case, srecords=[objs[j] for j in idx])["result"]), distinct_objects=f(pg.run_impl(case)["result"]))
     return c01.replay(case)
